@@ -64,6 +64,8 @@ def statements(tier: str):
               "a(X+Y) :- r(X,Y).", "a(X) :- r(X,Y), p(X+Y).", "a(X) :- p(X), q(2*X).", "a(X) :- p(X), q(X*X).",
               "a(X) :- p(X), r(X+1,X-1).", "a(X/2) :- p(X).", "a(X\\\\2) :- p(X).", "a(X**2) :- p(X).",
               ":~ r(X,Y). [X-Y@X+Y,X*Y]", "#minimize { X+1@1,X : p(X) }.", "#maximize { 2*X@1 : p(X) }.",
+              ":~ p(X+1), q(X). [X*2@1,X]", "a(X*2) :- p(X+1), q(X).", ":~ p(X), q(X+1). [X+1@X+1,X+1]",
+              "a(X+1) :- p(X+1), q(X+1), not r(X+1,X+2).", "#minimize { X+1@1,X : p(X+1) ; X*2@1,X,b : q(X*2) }.",
               "a(X+1,X+1) :- p(X).", "a(X) :- p(X), q(X+1), q(X+1).", "1 { a(X+1) : p(X) } 1."):
         out.append(("arith", s))
     # X = t equalities
@@ -104,7 +106,7 @@ CORE = [
 
 
 def universe(prog: str, tier: str) -> list[str]:
-    u = ["p(0)", "p(1)", "p(2)", "q(1)", "q(2)", "r(1,2)", "r(2,2)"]
+    u = ["p(0)", "p(1)", "p(2)", "p(3)", "q(1)", "q(2)", "q(3)", "r(1,2)", "r(2,2)"]
     if "a(" in prog.replace("a((", "a("):
         u.append("a(1)")
     elif "a" in prog:
